@@ -61,7 +61,7 @@ def export_case():
             gens.append({'blk': draw(st.integers(0, 400)), 'name': draw(st.sampled_from(['wel 1', 'wel 2', 'inj 1', 'src 7'])),
                          'type': draw(st.sampled_from(['MASS', 'HEAT', 'COM1', 'DELG', 'MASS', 'TMAK', 'DMAK'])),
                          'gx': draw(st.sampled_from([-5.0, 2.5, 0.0, 1e3])), 'table': draw(st.booleans())})
-        return {'k': 'export', 'rc': rc, 'eos': eosname, 'eos_via': draw(st.sampled_from(['argument', 'multi', 'simulator', 'simulator+multi', 'simulator+multi-blank-eos', 'simulator+multi-none-eos', 'multi-padded'])),
+        return {'k': 'export', 'rc': rc, 'eos': eosname, 'eos_via': draw(st.sampled_from(['argument', 'multi', 'simulator', 'simulator+multi', 'simulator+multi-blank-eos', 'simulator+multi-none-eos', 'multi-padded', 'simulator-padded'])),
                 'rocks': draw(st.lists(st.integers(0, 2), min_size=1, max_size=12)),
                 'boundary': draw(st.lists(st.tuples(st.integers(0, 400), st.sampled_from(['zero', 'huge', 'large'])), max_size=3)),
                 'atmos_volume': draw(st.sampled_from([1e25, 1e25, 1e20])),
@@ -267,6 +267,7 @@ def run_export(case, R):
     if via == 'argument': arg = eos
     elif via == 'multi': d.multi = {'eos': eos}
     elif via == 'simulator': d.simulator = 'AUTOUGH2.2' + eos
+    elif via == 'simulator-padded': d.simulator = ('AUTOUGH2.2' + eos).ljust(24)       # as read from a SIMUL line with trailing blanks
     elif via == 'multi-padded': d.multi = {'eos': (eos + '    ')[:4] if len(eos) < 4 else eos}
     else:
         d.simulator = 'AUTOUGH2.2' + eos
